@@ -70,6 +70,17 @@ def build(rng, tier):
                 if hn != 'Content-Type' and not ctv.lower().startswith(('multipart/form-data; b', 'application/x-www-form-urlencoded')): continue
                 for tgt, body in (('/form-multipart-enctype-post-method', mp_body), ('/form-url-encoded-enctype-post-method', b'a=1&b=2')):
                     cases.append(K.mk(tree, 'POST', tgt, [(hn, ctv)], body, entry=rng.choice(['proc', 'preq']), kind='media-type-spelling'))
+        # the same field / key / header more than once, in every place the server builds a map from client input
+        for body in (b'color=red&color=green', b'a=1&b=2&a=3', b'tag&tag', b'a=1&a=1', b'A=1&a=2', b'a%20b=1&a+b=2', b'=1&=2', b'x=1&' * 40 + b'x=2'):
+            cases.append(K.mk(tree, 'POST', '/form-url-encoded-enctype-post-method', [('Content-Type', 'application/x-www-form-urlencoded')], body, entry=rng.choice(['proc', 'preq']), kind='repeated-field'))
+            cases.append(K.mk(tree, 'GET', '/form-get-method?' + body.decode(), [], entry=rng.choice(['proc', 'preq']), kind='repeated-field'))
+            cases.append(K.mk(tree, 'POST', '/file-upload/initiate?name=a&lastModified=1&size=2&' + body.decode(), [], entry=rng.choice(['proc', 'preq']), kind='repeated-field'))
+        two = b'--B\r\nContent-Disposition: form-data; name="a"\r\n\r\n1\r\n--B\r\nContent-Disposition: form-data; name="a"; filename="f"\r\n\r\n2\r\n--B--\r\n'
+        cases.append(K.mk(tree, 'POST', '/form-multipart-enctype-post-method', [('Content-Type', 'multipart/form-data; boundary=B')], two, kind='repeated-field'))
+        for hn in ('Host', 'Origin', 'Range', 'Content-Type', 'Content-Length', 'Access-Control-Request-Method'):
+            v = {'Range': 'bytes=0-0', 'Content-Length': '0', 'Content-Type': 'text/plain'}.get(hn, 'http://a')
+            cases.append(K.mk(tree, 'GET', p0n, [(hn, v), (hn, v)], entry=rng.choice(['proc', 'preq']), kind='repeated-header'))
+            cases.append(K.mk(tree, 'OPTIONS', p0n, [(hn.lower(), v), (hn, v + '1'), (hn.upper(), '')], entry=rng.choice(['proc', 'preq']), kind='repeated-header'))
         # client-supplied numbers at and around every machine-integer limit, in every place a handler or parser reads a number:
         # query parameters of the built-in endpoints, Content-Length, Range bounds (arithmetic on them must not overflow)
         LIMITS = [0, 1, 255, 256, 32767, 32768, 65535, 65536, 2**31 - 1, 2**31, 2**32 - 1, 2**32, 2**63 - 1, 2**63, 2**64 - 1, 2**64, 2**127 - 1, 2**127, 2**128 - 1, 2**128]
@@ -150,7 +161,8 @@ def judge(res, results, status_table=None):
 
 def firstword(raw):
     # HTTP methods are case-sensitive (RFC 9110 9.1): `OPTIOnS` is not OPTIONS, the bodiless clause does not apply to it
-    try: return raw.split(b' ', 1)[0].decode('ascii').strip()
+    # the first token AFTER the leading white space the parser trims (` HEAD /x HTTP/1.1` is a HEAD request)
+    try: return raw.split(b'\n', 1)[0].decode('utf-8').strip(K.RUST_WS).split(' ', 1)[0]
     except Exception: return '?'
 
 def run(res, tier, seed):
